@@ -248,6 +248,19 @@ class Reader(object):
                 self.tokens['bin'] += 1
                 return ('bin', payload)
             self.tokens['xstr'] += 1
+            if m.group(1) == 'hex':
+                # the payload denotes bytes: only a well-formed payload is taken, and it is known by its canonical text
+                if len(payload) % 2 or re.search(r'[^0-9a-fA-F]', payload):
+                    raise RefReject('xstr-payload-malformed', i, payload[:20])
+                payload = payload.lower()
+            elif m.group(1) == 'b64':
+                import base64
+                import binascii
+                try:
+                    raw = base64.b64decode(payload.encode('ascii'), validate=True)
+                except (binascii.Error, UnicodeEncodeError, ValueError):
+                    raise RefReject('xstr-payload-malformed', i, payload[:20])
+                payload = base64.b64encode(raw).decode('ascii')
             return ('xstr', m.group(1), payload)
         m = DT_RE.match(s, i)
         if m:
